@@ -1,5 +1,5 @@
 use swc_core::{
-    common::DUMMY_SP,
+    common::{Mark, DUMMY_SP},
     ecma::{
         ast::*,
         utils::{private_ident, quote_ident, quote_str},
@@ -93,22 +93,25 @@ pub(crate) fn build_slot_helper(helper_name: Ident, is_vnode: Ident) -> FnDecl {
     }
 }
 
-pub(crate) fn is_jsx_attr_value_constant(value: &JSXAttrValue) -> bool {
+pub(crate) fn is_jsx_attr_value_constant(value: &JSXAttrValue, unresolved_mark: Mark) -> bool {
     match value {
         JSXAttrValue::Lit(..) => true,
         JSXAttrValue::JSXExprContainer(JSXExprContainer {
             expr: JSXExpr::Expr(expr),
             ..
-        }) => is_constant(expr),
+        }) => is_constant(expr, unresolved_mark),
         _ => false,
     }
 }
 
-fn is_constant(expr: &Expr) -> bool {
+fn is_constant(expr: &Expr, unresolved_mark: Mark) -> bool {
+    // only the global `undefined`: a parameter or variable of that name can hold anything
+    let is_undefined =
+        |ident: &Ident| &ident.sym == "undefined" && ident.ctxt.has_mark(unresolved_mark);
     match expr {
-        Expr::Ident(ident) => &ident.sym == "undefined",
+        Expr::Ident(ident) => is_undefined(ident),
         Expr::Array(ArrayLit { elems, .. }) => elems.iter().all(|element| match element {
-            Some(ExprOrSpread { spread: None, expr }) => is_constant(expr),
+            Some(ExprOrSpread { spread: None, expr }) => is_constant(expr, unresolved_mark),
             _ => false,
         }),
         Expr::Object(ObjectLit { props, .. }) => props.iter().all(|prop| {
@@ -117,12 +120,14 @@ fn is_constant(expr: &Expr) -> bool {
                     Prop::KeyValue(KeyValueProp { key, value }) => {
                         // a computed key is evaluated on every render, just like the value
                         let is_key_constant = match key {
-                            PropName::Computed(computed) => is_constant(&computed.expr),
+                            PropName::Computed(computed) => {
+                                is_constant(&computed.expr, unresolved_mark)
+                            }
                             _ => true,
                         };
-                        is_key_constant && is_constant(value)
+                        is_key_constant && is_constant(value, unresolved_mark)
                     }
-                    Prop::Shorthand(ident) => &ident.sym == "undefined",
+                    Prop::Shorthand(ident) => is_undefined(ident),
                     _ => false,
                 }
             } else {
